@@ -160,6 +160,7 @@ static void runOne(const Workload* w, uint64_t seed, const Args& a, const char* 
   sim_note(w->name, 0);
   w->fn();
   sim_end();
+  sim_report_soft();
   char buf[8192];
   sim_result_line(buf, sizeof buf, "ok", "", "");
   ssize_t r = write(1, buf, strlen(buf));
